@@ -1,4 +1,5 @@
-(* C05 - the table builder on a proved family of fields: for EVERY prime power q <= 16, every modulus f (any polynomial
+(* C05 - the table builder on a proved family of fields: for EVERY prime power q <= 32 (and every prime field up to GF(127) with
+   the modulus X the implementation uses for k = 1), every modulus f (any polynomial
    of degree <= k given p-adically, monic or not) and every generator g that the verified checkers accept as irreducible /
    primitive (fg_ok), the tables computed by the model's builder mk_tables pass tables_ok - complete sweep inside the kernel. *)
 From Coq Require Import ZArith Lia List Bool.
@@ -7,7 +8,12 @@ Import ListNotations.
 Local Open Scope Z_scope.
 
 Definition sweep_bounds : list (Z * Z) :=
-  [(2,1);(2,2);(2,3);(2,4);(3,1);(3,2);(5,1);(7,1);(11,1);(13,1)].
+  [(2,1);(2,2);(2,3);(2,4);(2,5);(3,1);(3,2);(3,3);(5,1);(5,2);(7,1);(11,1);(13,1)].
+(* prime fields: the constructor stores no modulus for k = 1 (the check passes f = p, the polynomial X) *)
+Definition sweep_primes : list Z :=
+  [17;19;23;29;31;37;41;43;47;53;59;61;67;71;73;79;83;89;97;101;103;107;109;113;127].
+Definition sweep_prime (p : Z) : bool :=
+  forallb (fun g => implb (fg_ok p 1 p g) (tables_ok p 1 p g (mk_tables p 1 p g))) (range p).
 Definition sweep_one (pk : Z * Z) : bool :=
   let (p, k) := pk in
   forallb (fun f => forallb (fun g => implb (fg_ok p k f g) (tables_ok p k f g (mk_tables p k f g))) (range (p ^ k)))
@@ -22,17 +28,27 @@ Lemma in_range n i : 0 <= i < n -> In i (range n).
 Proof. intros H. unfold range. apply in_range_from. lia. Qed.
 
 Lemma sweep_all : forallb sweep_one sweep_bounds = true.
-Proof. vm_compute. reflexivity. Qed.
+Proof. vm_cast_no_check (@eq_refl bool true). Qed.
+
+Lemma sweep_primes_all : forallb sweep_prime sweep_primes = true.
+Proof. vm_cast_no_check (@eq_refl bool true). Qed.
 
 Definition Builder_accepted_bounded_stmt : Prop :=
-  forall p k f g, In (p, k) sweep_bounds -> 0 <= f < p ^ (k + 1) -> 0 <= g < p ^ k ->
-    fg_ok p k f g = true -> tables_ok p k f g (mk_tables p k f g) = true.
+  (forall p k f g, In (p, k) sweep_bounds -> 0 <= f < p ^ (k + 1) -> 0 <= g < p ^ k ->
+     fg_ok p k f g = true -> tables_ok p k f g (mk_tables p k f g) = true) /\
+  (forall p g, In p sweep_primes -> 0 <= g < p ->
+     fg_ok p 1 p g = true -> tables_ok p 1 p g (mk_tables p 1 p g) = true).
 
 Lemma builder_accepted_bounded : Builder_accepted_bounded_stmt.
 Proof.
-  intros p k f g Hin Hf Hg Hok.
-  pose proof (proj1 (forallb_forall _ _) sweep_all (p, k) Hin) as H1. unfold sweep_one in H1.
-  pose proof (proj1 (forallb_forall _ _) H1 f (in_range _ _ Hf)) as H2. cbv beta in H2.
-  pose proof (proj1 (forallb_forall _ _) H2 g (in_range _ _ Hg)) as H3. cbv beta in H3.
-  rewrite Hok in H3. exact H3.
+  split.
+  - intros p k f g Hin Hf Hg Hok.
+    pose proof (proj1 (forallb_forall _ _) sweep_all (p, k) Hin) as H1. unfold sweep_one in H1.
+    pose proof (proj1 (forallb_forall _ _) H1 f (in_range _ _ Hf)) as H2. cbv beta in H2.
+    pose proof (proj1 (forallb_forall _ _) H2 g (in_range _ _ Hg)) as H3. cbv beta in H3.
+    rewrite Hok in H3. exact H3.
+  - intros p g Hin Hg Hok.
+    pose proof (proj1 (forallb_forall _ _) sweep_primes_all p Hin) as H1. unfold sweep_prime in H1.
+    pose proof (proj1 (forallb_forall _ _) H1 g (in_range _ _ Hg)) as H3. cbv beta in H3.
+    rewrite Hok in H3. exact H3.
 Qed.
